@@ -44,12 +44,22 @@ def run(hist, transport, path):
         attach = [list(c) for c in tgt.log]
         for c in hist["calls"]:
             n0 = len(tgt.log)
+            if c["m"] == "_ua":            # not a call: the target establishes unit attention conditions (power on, parameters changed, ...)
+                ua = []
+                for k in range(c["n"]):
+                    sb = bytearray(18)
+                    sb[0], sb[2], sb[7], sb[12], sb[13] = 0x70, 6, 10, [0x29, 0x2A, 0x3F][k % 3], [0x00, 0x01, 0x0E][k % 3]
+                    ua.append(bytes(sb))
+                tgt.ua += ua
+                res.append(dict(ua=c["n"], cdbs=[]))
+                continue
             try:
                 cmd = getattr(facade, c["m"])(*[val(v) for v in c.get("pos", [])], **{k: val(v) for k, v in c.get("kw", {}).items()})
                 r = dict(ok=list(cmd.datain), result={k: v for k, v in (cmd.result or {}).items() if isinstance(v, int)} if c["m"].startswith("readcap") else None)
             except Exception as e:  # noqa
                 r = dict(exn=excname(e))
             r["cdbs"] = [list(x) for x in tgt.log[n0:]]
+            r["ua_terminated"] = [j - n0 for j in tgt.ua_log if j >= n0]
             res.append(r)
     finally:
         try:
